@@ -1,3 +1,4 @@
+import FsutilModel.DiffOrder
 import FsutilModel.DiffFinal
 import FsutilModel.Model.DiffB
 import FsutilModel.DiffEmits
@@ -89,6 +90,13 @@ theorem deletes_only_removed (none : Bool) (L U : List StatE)
     (∃ l ∈ L.map StatE.toEnt, l.path = p) ∧ ∀ u ∈ U.map StatE.toEnt, u.path ≠ p := by
   unfold diffB at h
   exact delete_mem_only byteOrd none _ _ _ Option.none hL hU (by simp) p h
+
+/-- Minimality, per path: the change events of any two strictly ascending listings carry strictly ascending paths,
+so the receiver computes at most one event per path (and sends at most one request for it). -/
+theorem at_most_one_event_per_path (none : Bool) (L U : List StatE)
+    (hL : Sorted byteOrd (L.map StatE.toEnt)) (hU : Sorted byteOrd (U.map StatE.toEnt)) :
+    ((diffB none L U).map evPath).Pairwise (fun a b => byteOrd.lt a b = true) :=
+  diff_ascending byteOrd none (L.length + U.length + 1) (L.map StatE.toEnt) (U.map StatE.toEnt) Option.none hL hU
 
 /-- non-vacuity: a two-entry listing [a (dir), a/b (file)] is Valid -/
 example : (diffB false [⟨[97], modeDir ||| 493, 0, 0, 0, 5, [], 0, 0, []⟩, ⟨[97, 47, 98], 420, 0, 0, 3, 5, [], 0, 0, []⟩]
